@@ -114,12 +114,13 @@ package ice
 //@ enumerate C18 calls ice.(*Agent).startNetworkMonitoring in (*Agent).gatherCandidates
 
 //@ func (*Agent).Restart$1
-//@   props C18 C06 C02 C04 C03
+//@   props C18 C06 C02 C04 C03 C09
 //@   site call updateConnectionState#1 assert C04 restart-returns-to-checking-unless-new: arg1 == ConnectionStateChecking && a.connectionState != ConnectionStateNew && a.getSelectedPair() == nil
 //@   site call gatherCandidateCancel#1 assert cancels-the-running-cycle-first: true
 //@   ensures C18 back-to-new: a.gatheringState == GatheringStateNew
 //@   ensures C06 C02 C03 no-pairs-or-transactions-of-the-old-generation: len(a.checklist) == 0 && len(a.pairsByID) == 0 && len(a.pendingBindingRequests) == 0
 //@   ensures C06 no-selection-of-the-old-generation: a.getSelectedPair() == nil
+//@   ensures C06 C09 no-candidate-of-the-old-generation: forall k NetworkType :: !has(a.localCandidates, k) && !has(a.remoteCandidates, k)
 //@   ensures C02 fresh-local-credentials-and-no-remote-ones: a.localUfrag == ufrag && a.localPwd == pwd && a.remoteUfrag == "" && a.remotePwd == ""
 
 // The host gatherer: which transports it may open sockets for, which filters and
